@@ -2,6 +2,18 @@
    Seeds arrive as unsigned decimals 0 .. 2^32-1 (the bit pattern of the C int). *)
 let n_of_dec (s : string) : n = n_of_int (int_of_string s)
 
+(* C ints of LoginGlue are Z *)
+let int_of_z (x : z) : int = match x with Z0 -> 0 | Zpos p -> int_of_pos p | Zneg p -> - (int_of_pos p)
+let z_of_int (i : int) : z = if i = 0 then Z0 else if i > 0 then Zpos (pos_of_int i) else Zneg (pos_of_int (- i))
+
+(* what the client sends after handshake_version accepted the reply: userid byte and hash of the
+   login message, hash of the raw login *)
+let glue_sent (p : n list) (seed : z) (uid : z) : string =
+  Printf.sprintf "uid=%d luid=%d dns=%s raw=%s" (int_of_z uid) ((int_of_z uid) land 255)
+    (hex_of_bytes (cli_dns_login p seed)) (hex_of_bytes (cli_raw_login p seed))
+
+let rec take k l = if k <= 0 then [] else match l with [] -> [] | x :: t -> x :: take (k - 1) t
+
 let run_line (line : string) : string =
   let toks = String.split_on_char ' ' (String.trim line) in
   match toks with
@@ -26,4 +38,32 @@ let run_line (line : string) : string =
       let p = bytes_of_hex phex and s = n_of_dec seed in
       Printf.sprintf "%s %s" (hex_of_bytes (raw_login_up p s))
         (if raw_client_accepts p s (bytes_of_hex hhex) then "ACCEPT" else "REJECT")
+  | [ "HV"; phex; rhex; _ ] ->
+      (* client.c handshake_version on the reply, then handshake_login / send_raw_udp_login *)
+      let p = bytes_of_hex phex in
+      (match cli_version (bytes_of_hex rhex) with
+       | None -> "rv=1"
+       | Some (seed, uid) ->
+           Printf.sprintf "rv=0 seed=%d %s" (int_of_n (u32_of_Z seed)) (glue_sent p seed uid))
+  | [ "HF"; phex; rhex; _; ahex ] ->
+      (* client.c client_handshake in raw mode; ahex = payload of the server's raw-login answer *)
+      let p = bytes_of_hex phex in
+      (match cli_version (bytes_of_hex rhex) with
+       | None -> "rv=1"
+       | Some (seed, uid) ->
+           Printf.sprintf "rv=0 %s conn=%s" (glue_sent p seed uid)
+             (if cli_raw_accepts p seed (bytes_of_hex ahex) then "RAW" else "DNS"))
+  | [ "SV"; phex; r; uid; _; hhex ] ->
+      (* iodined.c 'V' branch with rand() = r, then the login handler on the 16 hash bytes *)
+      let p = bytes_of_hex phex in
+      let seed = int_of_u32 (n_of_dec r) in
+      let h = take 16 (bytes_of_hex hhex @ List.init 16 (fun _ -> N0)) in
+      let ok = srv_login_accepts p seed h in
+      Printf.sprintf "reply=%s seed=%d rand_calls=1 login=%s auth=%d"
+        (hex_of_bytes (srv_version_reply seed (z_of_int (int_of_string uid))))
+        (int_of_n (u32_of_Z seed)) (if ok then "ACCEPT" else "LNAK") (if ok then 1 else 0)
+  | [ "SN"; vhex; _ ] ->
+      (* iodined.c 'V' branch on a version message that is not the server's version *)
+      if srv_version_matches (bytes_of_hex vhex) then "VERSION-MATCHES"
+      else Printf.sprintf "reply=%s rand_calls=0" (hex_of_bytes srv_version_nak)
   | _ -> "UNKNOWN-CASE"
